@@ -41,7 +41,7 @@ pub enum SchedKind {
 }
 
 pub const N_BUGGIFY: usize = 4;
-pub const N_PROBES: usize = 32;
+pub const N_PROBES: usize = 40;
 pub const N_OPKINDS: usize = 32;
 
 #[derive(Clone, Debug)]
@@ -390,7 +390,7 @@ pub struct Failure {
     pub tid: Tid,
 }
 
-#[derive(Clone, Debug, Default)]
+#[derive(Clone, Debug)]
 pub struct Stats {
     pub steps: u64,
     pub decisions: u64,
@@ -416,6 +416,35 @@ pub struct Stats {
     /// thread-local destructors), main included.
     pub peak_live_threads: u64,
     pub live_threads: u64,
+}
+
+impl Default for Stats {
+    fn default() -> Self {
+        Stats {
+            steps: 0,
+            decisions: 0,
+            ctx_switches: 0,
+            stale_reads: 0,
+            stale_cas_fail: 0,
+            spurious_cas: 0,
+            buggify: [0; N_BUGGIFY],
+            addr_reuse: 0,
+            probes: [0; N_PROBES],
+            solo_probes: 0,
+            solo_probe_max_steps: 0,
+            solo_probe_by_op: [0; N_OPKINDS],
+            meter_max: [0; N_OPKINDS],
+            meter_cnt: [0; N_OPKINDS],
+            threads_spawned: 0,
+            thread_exits: 0,
+            tls_gone_ops: 0,
+            adversary_ops: 0,
+            races_checked: 0,
+            max_admissible: 0,
+            peak_live_threads: 0,
+            live_threads: 0,
+        }
+    }
 }
 
 pub struct Outcome {
